@@ -237,7 +237,12 @@ RULE = (
     "fresh copies of the new contents; classes 26 and 24 — two grids differing in one hidden dependency (store, radial grid, a node at r = 0, "
     "Becke order, array vs Becke, degree, radial grid under from_preset) alive together in both orders: answers (arrays, integral, per-atom "
     "grids, local grid, interpolation) against those taken before the other existed, a rebuilt twin, the opposite order and the instance alone "
-    "in a fresh interpreter; default radial grids of elements with different numbers of points requested in both orders against the closed form"
+    "in a fresh interpreter; default radial grids of elements with different numbers of points requested in both orders against the closed form. "
+    "Elements without a tabulated Bragg-Slater radius (He, Ne, Ar, Kr, Xe, At, Rn) in molecules of 2-4 atoms, alone and mixed with H / C / O / F, "
+    "default weights and BeckeWeights(order=k), preset / from_size / MolGrid(...) routes: aim_weights at probe points of every atom (incl. the point "
+    "nearest to each nucleus) against a plain scalar-loop Becke formula with the documented fallback radius (Z-1, then Z-2), weights = atweights * "
+    "aim_weights, and for the default order the charge of normalised Gaussians (exponents 10-30) on every nucleus on coarse / medium presets within "
+    "1 % (measured on the pinned tree: <= 0.17 %)"
 )
 TRUSTED_BASE = [
     "Lean 4.33 kernel; axioms propext, Classical.choice, Quot.sound only (audited per theorem)",
